@@ -974,6 +974,26 @@ pub fn complement_inside_family(pool: &Pool) -> Vec<T> {
     ];
     let heads: Vec<T> = vec![a.clone(), ab.clone(), T::Rng(pool.a, pool.b), T::Star(b(&a)), T::AllChar, T::Opt(b(&c))];
     let mut v = vec![];
+    // a complemented head followed by a nullable tail that itself starts with a complement or with Sigma: states
+    // reached only through default edges, nullable without being the target of any explicit transition
+    {
+        let chead: Vec<T> = vec![
+            T::Not(Box::new(T::Star(b(&a)))), T::Not(Box::new(T::Star(Box::new(T::Rng(pool.a, pool.b))))),
+            T::Not(Box::new(T::Opt(b(&a)))), T::Not(b(&T::Eps)), T::Not(Box::new(T::Plus(b(&ab)))),
+        ];
+        let ntail: Vec<T> = vec![
+            T::Not(b(&a)), T::Opt(Box::new(T::Not(b(&bb)))), T::Opt(b(&T::AllChar)), T::Star(Box::new(T::Not(b(&a)))),
+            T::Not(Box::new(T::Cat2(b(&bb), b(&T::All)))), T::Opt(b(&a)), T::All,
+        ];
+        for h in &chead {
+            for y in &ntail {
+                let hy = T::Cat2(b(h), b(y));
+                v.push(hy.clone());
+                v.push(T::Cat2(b(&c), b(&hy)));
+                v.push(T::Alt2(b(&hy), b(&c)));
+            }
+        }
+    }
     for y in &inner {
         let n = T::Not(b(y));
         for x in &heads {
@@ -1060,6 +1080,18 @@ pub fn semantically_empty_family(pool: &Pool) -> Vec<T> {
     let e11 = T::Not(b(&u4));
     let empties = vec![e1, e2, e3, e4, e5, e6, e7, e8, e9, e10, e11];
     let mut v = empties.clone();
+    // unions / intersections of two DIFFERENT empty terms stay unions: nothing syntactic says they are empty
+    for (i, e1) in empties.iter().enumerate() {
+        for e2 in empties.iter().skip(i + 1) {
+            let u = T::Alt2(b(e1), b(e2));
+            v.push(u.clone());
+            v.push(T::Cat2(b(&a), b(&u)));
+            v.push(T::Cat2(b(&u), b(&a)));
+            v.push(T::Plus(Box::new(T::Cat2(b(&a), b(&u)))));
+            v.push(T::Cat2(Box::new(T::Opt(b(&bb))), Box::new(T::Cat2(b(&a), b(&u)))));
+            v.push(T::Cat2(b(&a), Box::new(T::Cat2(b(&bb), b(&u)))));
+        }
+    }
     for e in &empties {
         v.push(T::Star(b(e)));
         v.push(T::Opt(b(e)));
